@@ -9,12 +9,19 @@ Union/Intersect/Sub/Xor is executed by the harness (go/cmd/c05), which appends t
                 at every point of every open unit cell, and nothing is inside outside the square);
   general area  polygons in general position (generator rejects the rest): `EO.validatePoints` on 120 sample points
                 per call that keep a margin of 1/64 from every edge of A, B and R — SAMPLING with a Lean oracle;
+  biglattice /  LARGE inputs (a few dozen calls per quick run): 66-110 lattice rows / columns listed in descending,
+  biggeneral    ascending or shuffled order, staircases and combs with 66-150 steps on [0,N]^2, N = 72..150 (exhaustive
+                cell check, N^2 cells per call); 100-400-gons (regular, perturbed, elliptic, rings), the polygons
+                poly.FromEllipse / poly.FromRect themselves produce, against each other and against small polygons, in
+                general position (margins 1/2), 100 sample points per call, Lean margin 1/8;
   corpus        corpus/C05/*.ops (fixed enumerated degenerate inputs and boundary cases), both modes;
                 corpus/C05/degenerate.known.ops are the KNOWN FINDINGS on degenerate lattice inputs (panics, wrong
                 regions): each must be matched by an entry of known_findings.json (KNOWN-FINDING, exit 0), every other
                 rejected call is a VIOLATION.  A random degenerate-lattice stream is run as an observation only.
 
-Anything but `valid <judgements>` (invalid <witness>, operands-modified, empty-mismatch, panic, crash) is a violation.
+Anything but `valid <judgements>` (invalid <witness>, operands-modified, empty-mismatch, panic, timeout, crash) is a
+violation.  Every call runs under a 5 s watchdog inside the harness (a looping clipper costs seconds: after three
+timeouts the rest of that stream is skipped).
 """
 import hashlib
 import json
@@ -24,12 +31,15 @@ DRIVER = "drv_c05"
 N_CALLS = {
     "lattice": {"quick": 60000, "thorough": 2400000},
     "general": {"quick": 6000, "thorough": 200000},
+    # LARGE inputs (deep scan-beam tree / long active edge table); each call costs 0.1-1.5 s of oracle time
+    "biglattice": {"quick": 32, "thorough": 1600},
+    "biggeneral": {"quick": 48, "thorough": 4000},
 }
 
 
 def _validate(ctx, area, lines):
     """-> list of (line, impl_out, verdict)"""
-    io = ctx.run_impl(area, lines, timeout=1800)
+    io = ctx.run_impl(area, lines, timeout=300 if ctx.tier == "quick" else 1800)
     if io is None:
         return None
     joined = [l + " => " + o for l, o in zip(lines, io)]
@@ -147,13 +157,18 @@ def run(ctx):
     if ctx.replay:
         return _replay(ctx)
 
-    shards = {"lattice": 8, "general": 16} if ctx.tier == "quick" else {"lattice": 32, "general": 96}
+    if ctx.tier == "quick":
+        shards = {"lattice": 8, "general": 16, "biglattice": 8, "biggeneral": 8}
+    else:
+        shards = {"lattice": 32, "general": 96, "biglattice": 32, "biggeneral": 32}
     jobs = []
-    for area in ("lattice", "general", "degenerate"):
+    chunk = {"biglattice": 1, "biggeneral": 2}  # the large corpus calls cost about a second of oracle time each
+    for area in ("biglattice", "biggeneral", "lattice", "general", "degenerate"):
         c = ctx.corpus(area)
-        for k in range(0, len(c), 100):  # chunks: the degenerate corpus lines carry many sample points
-            jobs.append((area, "corpus%d" % (k // 100), c[k:k + 100], None, 0))
-    for area in ("general", "lattice"):  # general shards are the long ones: start them first
+        n = chunk.get(area, 100)  # chunks: the degenerate corpus lines carry many sample points
+        for k in range(0, len(c), n):
+            jobs.append((area, "corpus%d" % (k // n), c[k:k + n], None, 0))
+    for area in ("biglattice", "biggeneral", "general", "lattice"):  # long jobs first
         per = max(1, N_CALLS[area][ctx.tier] // shards[area])
         for i in range(shards[area]):
             jobs.append((area, "seed%d" % (ctx.seed * 1000003 + i), None, ctx.seed * 1000003 + i, per))
@@ -207,13 +222,17 @@ def run(ctx):
             ctx.samples += S["samples"][:1] if len(ctx.samples) >= 4 else S["samples"]
         counters["programs"] += S["programs"]
         counters["judgements"] += S["judgements"]
-        counters["judgements_" + S["area"]] = counters.get("judgements_" + S["area"], 0) + S["judgements"]
+        fam = "lattice" if "lattice" in S["area"] else "general"
+        counters["judgements_" + fam] = counters.get("judgements_" + fam, 0) + S["judgements"]
+        if S["area"].startswith("big"):
+            counters["programs_large"] = counters.get("programs_large", 0) + S["programs"]
         counters["empty_results"] += S["empty_results"]
         _report(ctx, S, counters)
     ctx.extra["programs"] = counters["programs"]
     ctx.extra["disagreements_checked"] = counters["judgements"]
     ctx.extra["judgements_lattice_cells_exhaustive"] = counters.get("judgements_lattice", 0)
     ctx.extra["judgements_general_sample_points"] = counters.get("judgements_general", 0)
+    ctx.extra["programs_large_inputs"] = counters.get("programs_large", 0)
     ctx.extra["empty_results"] = counters["empty_results"]
     ctx.extra["violations_not_listed"] = counters["suppressed"]
     ctx.extra["known_finding_inputs_hit"] = counters.get("known", 0)
